@@ -1,4 +1,454 @@
-//! stream `proto` — not implemented yet
-pub fn handle(_args: &[&str]) -> Option<String> {
+//! stream `proto` (C17, C18, protobuf part of C04): the real `ProtobufWriter` / `ProtobufReader` on the
+//! compiled zoo types, both writer back ends (growable `Vec`, fixed `&mut [u8]`), and the generated
+//! `.proto` files.
+//!
+//!   proto enc <name> <Ty> <Val>   -> ok <hex> slice:<hex|err:class> short:<err:class|ok:hex|->
+//!   proto rt  <name> <Ty> <Val>   -> ok <hex> <Val'|readerr:class|readpanic> peq:<0|1|->
+//!   proto dec <name> <Ty> <hex>   -> ok <Val> | err <class> | panic      (hostile input)
+//!   proto schema <name>           -> ok <package> <message> <hex of the definition text> | err no-schema
+//!   proto wire <name> [<Ty>]      -> ok msg 1:uint32,2:rep.msg,… | ok oneof 1:… | ok enum <n>   (numbers and
+//!                                    declared types read off the generated definition)
+//!   proto files                   -> ok <path>,<path>,…                  (generated .proto files)
+//!   proto sets                    -> ok <module>::<Type>,…               (generated types carrying `#[asn(set…)]`)
+//!   proto peq x <Ty> <Val> <Val>  -> ok <0|1> | err unsupported          (the crate's `ProtobufEq` impls)
+//!
+//! A reader that never returns (SEQUENCE OF directly inside SEQUENCE OF, see the findings) is cut
+//! off by an address-space limit set on the first `proto` request: the process dies with an
+//! allocation failure and the runner records `abort` for that request.
+use crate::dynval::*;
+use crate::util::{hex, unhex};
+use crate::zoo::{with_type, Visitor, ZOO_PROTO_FILES};
+use asn1rs::descriptor::{Readable, Writable};
+use asn1rs::prelude::*;
+use asn1rs::protocol::protobuf::Error as PErr;
+use std::panic::{catch_unwind, AssertUnwindSafe};
+use std::sync::Once;
+
+/// error class of a protobuf error; must match `ErrKind.toString` on the Lean side
+pub fn proto_err(e: &PErr) -> &'static str {
+    match e {
+        PErr::Io(_, ioe) => match ioe.kind() {
+            std::io::ErrorKind::UnexpectedEof => "eos",
+            std::io::ErrorKind::WriteZero => "nospace",
+            _ => "other",
+        },
+        PErr::InvalidUtf8Received => "utf8",
+        PErr::MissingRequiredField(_) => "other",
+        PErr::InvalidTagReceived(..) => "other",
+        PErr::InvalidFormat(..) => "unsupported",
+        PErr::InvalidVariant(..) => "choice-index",
+        PErr::UnexpectedFormat(..) => "other",
+        PErr::UnexpectedTag(..) => "choice-index",
+    }
+}
+
+#[repr(C)]
+struct RLimit {
+    cur: u64,
+    max: u64,
+}
+extern "C" {
+    fn setrlimit(resource: i32, rlim: *const RLimit) -> i32;
+}
+static LIMIT: Once = Once::new();
+
+/// RLIMIT_AS (Linux: 9): a diverging reader dies by allocation failure within a second or two
+fn limit_memory() {
+    LIMIT.call_once(|| {
+        let mib: u64 = std::env::var("VERIF_PROTO_AS_MIB").ok().and_then(|s| s.parse().ok()).unwrap_or(160);
+        let l = RLimit { cur: mib << 20, max: mib << 20 };
+        unsafe {
+            setrlimit(9, &l);
+        }
+    });
+}
+
+/// `Val` text; a BIT STRING whose bit length exceeds its octets (the protobuf reader does not
+/// check) is rendered as `(seq (oct <octets>) (int <bit length>))`
+fn render(v: &Val) -> String {
+    match v {
+        Val::Bits(b, n) if *n > (b.len() as u64) * 8 => format!("(seq (oct {}) (int {}))", hex(b), n),
+        Val::List(vs) => format!("(list{})", vs.iter().map(|x| format!(" {}", render(x))).collect::<String>()),
+        Val::Seq(vs) => format!("(seq{})", vs.iter().map(|x| format!(" {}", render(x))).collect::<String>()),
+        Val::Choice(i, x) => format!("(choice {} {})", i, render(x)),
+        Val::Some(x) => format!("(some {})", render(x)),
+        other => other.to_sexpr(),
+    }
+}
+
+fn dump<T: Writable>(v: &T) -> String {
+    to_val(v).map(|x| render(&x)).unwrap_or_else(|e| format!("(dump-error {})", e.replace(' ', "_")))
+}
+
+fn enc_vec<T: Writable>(v: &T) -> Result<Vec<u8>, &'static str> {
+    let mut w = ProtobufWriter::default();
+    match w.write(v) {
+        Ok(()) => Ok(w.into_bytes_vec()),
+        Err(e) => Err(proto_err(&e)),
+    }
+}
+
+fn enc_slice<T: Writable>(v: &T, cap: usize) -> Result<Vec<u8>, &'static str> {
+    // canary bytes behind the slice handed to the writer
+    let mut buf = vec![0xA5u8; cap + 4];
+    let res = {
+        let mut w = ProtobufWriter::from(&mut buf[..cap]);
+        match w.write(v) {
+            Ok(()) => {
+                let n = w.len_written();
+                let a = w.as_bytes().to_vec();
+                let b = w.into_bytes_vec();
+                if a != b || n != a.len() {
+                    return Err("accessors-disagree");
+                }
+                Ok(a)
+            }
+            Err(e) => Err(proto_err(&e)),
+        }
+    };
+    if buf[cap..] != [0xA5u8; 4] {
+        return Err("wrote-behind-slice");
+    }
+    res
+}
+
+fn dec<T: Readable + Writable>(bytes: &[u8]) -> Result<String, &'static str> {
+    let mut r = ProtobufReader::from(bytes);
+    match r.read::<T>() {
+        Ok(v) => Ok(dump(&v)),
+        Err(e) => Err(proto_err(&e)),
+    }
+}
+
+struct Op<'a> {
+    op: &'a str,
+    args: Vec<Sx>,
+}
+
+fn atom(sx: &Sx) -> Option<&str> {
+    match sx {
+        Sx::Atom(a) => Some(a.as_str()),
+        _ => None,
+    }
+}
+
+impl<'a> Visitor for Op<'a> {
+    type Out = Option<String>;
+    fn visit<T: Readable + Writable + std::fmt::Debug + PartialEq + Clone>(self) -> Option<String> {
+        let a = &self.args;
+        Some(match self.op {
+            "enc" => {
+                let v: T = from_val(val_of_sx(a.get(1)?)?).ok()?;
+                match enc_vec(&v) {
+                    Err(k) => format!("err {k}"),
+                    Ok(bytes) => {
+                        let exact = match enc_slice(&v, bytes.len()) {
+                            Ok(b) => hex(&b),
+                            Err(k) => format!("err:{k}"),
+                        };
+                        let short = if bytes.is_empty() {
+                            "-".to_string()
+                        } else {
+                            match enc_slice(&v, bytes.len() - 1) {
+                                Ok(b) => format!("ok:{}", hex(&b)),
+                                Err(k) => format!("err:{k}"),
+                            }
+                        };
+                        format!("ok {} slice:{} short:{}", hex(&bytes), exact, short)
+                    }
+                }
+            }
+            "rt" => {
+                let v: T = from_val(val_of_sx(a.get(1)?)?).ok()?;
+                match enc_vec(&v) {
+                    Err(k) => format!("err {k}"),
+                    Ok(bytes) => {
+                        let back = catch_unwind(AssertUnwindSafe(|| {
+                            let mut r = ProtobufReader::from(&bytes[..]);
+                            r.read::<T>().map_err(|e| proto_err(&e))
+                        }));
+                        match back {
+                            Err(_) => format!("ok {} readpanic", hex(&bytes)),
+                            Ok(Err(k)) => format!("ok {} readerr:{k}", hex(&bytes)),
+                            Ok(Ok(v2)) => format!("ok {} {} eq:{}", hex(&bytes), dump(&v2), if v2 == v { 1 } else { 0 }),
+                        }
+                    }
+                }
+            }
+            "dec" => {
+                let bytes = unhex(atom(a.get(1)?)?)?;
+                match dec::<T>(&bytes) {
+                    Ok(d) => format!("ok {d}"),
+                    Err(k) => format!("err {k}"),
+                }
+            }
+            _ => return None,
+        })
+    }
+}
+
+/// the text of `message <Name> { … }` / `enum <Name> { … }` in the generated files
+fn schema_of(name: &str) -> Option<(String, String, String)> {
+    let (module, ty) = name.split_once("::")?;
+    let want_file = format!("{module}.proto");
+    let path = ZOO_PROTO_FILES.iter().find(|p| p.ends_with(&format!("/{want_file}")))?;
+    let text = std::fs::read_to_string(path).ok()?;
+    let package = text.lines().find_map(|l| l.strip_prefix("package ").map(|r| r.trim_end_matches(';').trim().to_string()))?;
+    // the generator names the definition with `rust_struct_or_enum_name`, which is what the Rust type is called
+    let mut out = String::new();
+    let mut inside = false;
+    for line in text.lines() {
+        if !inside && (line == format!("message {ty} {{") || line == format!("enum {ty} {{")) {
+            inside = true;
+        }
+        if inside {
+            out.push_str(line);
+            out.push('\n');
+            if line == "}" {
+                return Some((package, ty.to_string(), out));
+            }
+        }
+    }
     None
+}
+
+// ------------------------------------------------------------------------------------ ProtobufEq
+// The generated types do not implement `ProtobufEq` (the generator does not emit the derive, and
+// `Null` has no implementation).  `crate_peq` evaluates the relation on a `Val` pair with the
+// crate's own implementations wherever one exists — the leaf types, `Vec<T>` and, above all,
+// `Option<T>` (absent vs. `T::default()`) — and follows `#[derive(ProtobufEq)]`
+// (asn1rs-macros/src/derive_protobuf_eq.rs: conjunction over the fields, same variant for enums)
+// for SEQUENCE / CHOICE / ENUMERATED.  `None` = a shape without a crate implementation to call
+// (an OPTIONAL SEQUENCE / CHOICE / ENUMERATED / NULL).
+
+fn field_parts(f: &Sx) -> Option<(&str, &Sx)> {
+    match f {
+        Sx::List(l) => match (l.first()?, l.last()?) {
+            (Sx::Atom(k), t) => Some((k.as_str(), t)),
+            _ => None,
+        },
+        _ => None,
+    }
+}
+
+fn head(ty: &Sx) -> Option<(&str, &[Sx])> {
+    match ty {
+        Sx::List(l) => match l.first()? {
+            Sx::Atom(a) => Some((a.as_str(), &l[1..])),
+            _ => None,
+        },
+        _ => None,
+    }
+}
+
+fn bitvec_of(b: &[u8], n: u64) -> BitVec {
+    BitVec::from_bytes(b.to_vec(), n)
+}
+
+/// `Option<T>` for the Rust types a leaf / list-of-leaf component has
+fn opt_peq(ty: &Sx, a: Option<&Val>, b: Option<&Val>) -> Option<bool> {
+    let (h, args) = head(ty)?;
+    macro_rules! go {
+        ($conv:expr) => {{
+            let x = match a { Some(v) => Some($conv(v)?), None => None };
+            let y = match b { Some(v) => Some($conv(v)?), None => None };
+            Some(ProtobufEq::protobuf_eq(&x, &y))
+        }};
+    }
+    match h {
+        "bool" => go!(|v: &Val| if let Val::Bool(x) = v { Some(*x) } else { None }),
+        "int" => go!(|v: &Val| if let Val::Int(x) = v { Some(*x) } else { None }),
+        "str" => go!(|v: &Val| if let Val::Str(x) = v { Some(x.clone()) } else { None }),
+        "oct" => go!(|v: &Val| if let Val::Oct(x) = v { Some(x.clone()) } else { None }),
+        "bits" => go!(|v: &Val| if let Val::Bits(x, n) = v { Some(bitvec_of(x, *n)) } else { None }),
+        "seqof" => {
+            let (eh, _) = head(args.get(3)?)?;
+            macro_rules! lst {
+                ($conv:expr) => {
+                    go!(|v: &Val| if let Val::List(xs) = v { xs.iter().map($conv).collect::<Option<Vec<_>>>() } else { None })
+                };
+            }
+            match eh {
+                "bool" => lst!(|v: &Val| if let Val::Bool(x) = v { Some(*x) } else { None }),
+                "int" => lst!(|v: &Val| if let Val::Int(x) = v { Some(*x) } else { None }),
+                "str" => lst!(|v: &Val| if let Val::Str(x) = v { Some(x.clone()) } else { None }),
+                "oct" => lst!(|v: &Val| if let Val::Oct(x) = v { Some(x.clone()) } else { None }),
+                _ => None,
+            }
+        }
+        _ => None,
+    }
+}
+
+fn crate_peq(ty: &Sx, a: &Val, b: &Val) -> Option<bool> {
+    let (h, args) = head(ty)?;
+    match (h, a, b) {
+        ("bool", Val::Bool(x), Val::Bool(y)) => Some(x.protobuf_eq(y)),
+        ("int", Val::Int(x), Val::Int(y)) => Some(x.protobuf_eq(y)),
+        ("str", Val::Str(x), Val::Str(y)) => Some(x.protobuf_eq(y)),
+        ("oct", Val::Oct(x), Val::Oct(y)) => Some(x.protobuf_eq(y)),
+        ("bits", Val::Bits(x, n), Val::Bits(y, m)) => Some(bitvec_of(x, *n).protobuf_eq(&bitvec_of(y, *m))),
+        // derive on a plain enum: `matches!(other, Self::X)`
+        ("enum", Val::Enum(x), Val::Enum(y)) => Some(x == y),
+        ("null", Val::Null, Val::Null) => Some(true),
+        ("seqof", Val::List(xs), Val::List(ys)) => {
+            // `impl ProtobufEq for Vec<T>`: equal length, element-wise
+            if xs.len() != ys.len() {
+                return Some(false);
+            }
+            let elem = args.get(3)?;
+            let mut all = true;
+            for (x, y) in xs.iter().zip(ys) {
+                all &= crate_peq(elem, x, y)?;
+            }
+            Some(all)
+        }
+        ("seq", Val::Seq(xs), Val::Seq(ys)) => {
+            let fields = &args[3..];
+            if fields.len() != xs.len() || fields.len() != ys.len() {
+                return None;
+            }
+            let mut all = true;
+            for ((f, x), y) in fields.iter().zip(xs).zip(ys) {
+                let (k, t) = field_parts(f)?;
+                all &= if k == "o" {
+                    let ox = match x { Val::None => None, Val::Some(v) => Some(&**v), _ => return None };
+                    let oy = match y { Val::None => None, Val::Some(v) => Some(&**v), _ => return None };
+                    opt_peq(t, ox, oy)?
+                } else {
+                    crate_peq(t, x, y)?
+                };
+            }
+            Some(all)
+        }
+        ("choice", Val::Choice(i, x), Val::Choice(j, y)) => {
+            if i != j {
+                return Some(false);
+            }
+            crate_peq(args.get(3 + *i as usize)?, x, y)
+        }
+        _ => None,
+    }
+}
+
+/// is `name` (possibly package-qualified) defined as a message or as an enum in the generated files
+fn kind_of(name: &str) -> Option<&'static str> {
+    let base = name.rsplit('.').next()?;
+    for p in ZOO_PROTO_FILES {
+        let text = std::fs::read_to_string(p).ok()?;
+        for line in text.lines() {
+            if line == format!("message {base} {{") {
+                return Some("msg");
+            }
+            if line == format!("enum {base} {{") {
+                return Some("enum");
+            }
+        }
+    }
+    None
+}
+
+/// `wire <name>`: numbers and declared types read off the generated definition text
+///   message: `msg 1:uint32,2:rep.msg,…`   CHOICE: `oneof 1:…`   enum: `enum <count>`
+fn wire_of(name: &str) -> Option<String> {
+    let (_, _, text) = schema_of(name)?;
+    let mut lines = text.lines();
+    let head = lines.next()?;
+    if head.starts_with("enum ") {
+        let mut n = 0usize;
+        for l in lines {
+            let l = l.trim();
+            if l == "}" {
+                break;
+            }
+            let (_, num) = l.trim_end_matches(';').split_once('=')?;
+            if num.trim().parse::<usize>().ok()? != n {
+                return Some("enum-misnumbered".into());
+            }
+            n += 1;
+        }
+        return Some(format!("enum {n}"));
+    }
+    let mut rows = Vec::new();
+    let mut oneof = false;
+    for l in lines {
+        let l = l.trim();
+        if l.starts_with("oneof ") {
+            oneof = true;
+            continue;
+        }
+        if l == "}" || l == "};" {
+            continue;
+        }
+        let (decl, num) = l.trim_end_matches(';').split_once('=')?;
+        let mut toks: Vec<&str> = decl.split_whitespace().collect();
+        toks.pop()?; // field name
+        let ty = toks.pop()?;
+        let base = match ty {
+            "bool" | "uint32" | "uint64" | "sint32" | "sint64" | "string" | "bytes" | "sfixed32" | "sfixed64" => ty.to_string(),
+            other => kind_of(other).unwrap_or("undefined").to_string(),
+        };
+        let reps = toks.iter().filter(|t| **t == "repeated").count();
+        rows.push(format!("{}:{}{}", num.trim(), "rep.".repeat(reps), base));
+    }
+    let body = if rows.is_empty() { "-".to_string() } else { rows.join(",") };
+    Some(format!("{} {}", if oneof { "oneof" } else { "msg" }, body))
+}
+
+/// generated structs that are SETs: `#[asn(set` in front of `pub struct Name` in the generated Rust
+fn set_types() -> Vec<String> {
+    let mut out = Vec::new();
+    for p in ZOO_PROTO_FILES {
+        let rs = p.trim_end_matches(".proto").to_string() + ".rs";
+        let module = rs.rsplit('/').next().unwrap_or("").trim_end_matches(".rs").to_string();
+        let Ok(text) = std::fs::read_to_string(&rs) else { continue };
+        let mut pending = false;
+        for line in text.lines() {
+            let l = line.trim_start();
+            if l.starts_with("#[asn(set") && !l.starts_with("#[asn(set_of") {
+                pending = true;
+            } else if let Some(rest) = l.strip_prefix("pub struct ") {
+                if pending {
+                    let name: String = rest.chars().take_while(|c| c.is_alphanumeric() || *c == '_').collect();
+                    out.push(format!("{module}::{name}"));
+                }
+                pending = false;
+            } else if l.starts_with("pub enum ") {
+                pending = false;
+            }
+        }
+    }
+    out
+}
+
+pub fn handle(args: &[&str]) -> Option<String> {
+    limit_memory();
+    match args {
+        ["sets"] => Some(format!("ok {}", set_types().join(","))),
+        ["peq", _, rest @ ..] => {
+            let sx = parse_sx_all(&rest.join(" "))?;
+            if sx.len() != 3 {
+                return None;
+            }
+            let (a, b) = (val_of_sx(&sx[1])?, val_of_sx(&sx[2])?);
+            Some(match crate_peq(&sx[0], &a, &b) {
+                Some(r) => format!("ok {}", if r { 1 } else { 0 }),
+                None => "err unsupported".to_string(),
+            })
+        }
+        ["wire", name, ..] => Some(match wire_of(name) {
+            Some(t) => format!("ok {t}"),
+            None => "err no-schema".to_string(),
+        }),
+        ["files"] => Some(format!("ok {}", ZOO_PROTO_FILES.join(","))),
+        ["schema", name] => Some(match schema_of(name) {
+            Some((p, m, t)) => format!("ok {} {} {}", p, m, hex(t.as_bytes())),
+            None => "err no-schema".to_string(),
+        }),
+        [op, name, rest @ ..] => {
+            let sx = parse_sx_all(&rest.join(" "))?;
+            with_type(name, Op { op, args: sx })?
+        }
+        _ => None,
+    }
 }
